@@ -305,6 +305,8 @@ func c19(x *runCtx) {
 	runtime.GOMAXPROCS(old)
 	c19Pipeline(x, r)
 	c19PipeModel(x, r)
+	c19FreshStore(x, r)
+	c19FreshStoreTokens(x)
 }
 
 func c19Concurrent(x *runCtx, r *rand.Rand, backend string, n, procs int, delays bool) {
